@@ -82,7 +82,7 @@ def einsum_plain(draw, names, out, max_vars=4, max_terms=3, max_factors=3, allow
                 factors.insert(pos, {"v": sname})
         take = None
         # (a take() inside a multi-term sum is known finding F-C01-1: generated rarely, and counted when excluded)
-        if allow_take and draw(st.integers(0, 3 if nterms == 1 else 15)) == 0:
+        if allow_take and draw(st.integers(0, 3 if nterms == 1 else 5)) == 0:
             take = draw(st.integers(0, len(factors) - 1))
         terms.append({"take": take, "factors": factors})
     expr = {"out": [out, [plain(v) for v in out_vars]], "terms": terms}
@@ -358,6 +358,18 @@ def case_flat(draw, max_extent=6, **kw):
     tr = [ie[0][1].upper() for ie in T["idx"]]
     k = draw(st.integers(2, min(3, len(tr))))
     flat = list(draw(st.permutations(tr)))[:k]
+    if draw(st.integers(0, 2)) == 0:
+        # make the OUTPUT carry every flattened rank, so that it is flattened too and must be unflattened by the footer
+        out_name_ = expr["out"][0]
+        have = [ie[0][1].upper() for ie in expr["out"][1]]
+        for r in flat:
+            if r not in have:
+                expr["out"][1].append(plain(r.lower()))
+                for d in spec["decl"]:
+                    if d[0] == out_name_:
+                        d[1].append(r)
+                if out_name_ in spec["rank_order"]:
+                    spec["rank_order"][out_name_].append(r)
     parts = []
     pre = {}       # rank -> levels above the flattened bottom level
     names = []
